@@ -9,6 +9,7 @@
 use clarabel::algebra::*;
 use clarabel::solver::*;
 use clarabel::verif_hooks::chordal as hk;
+use clarabel::verif_hooks::chordal_decomp as hkd;
 use std::collections::{BTreeMap, BTreeSet, HashMap};
 use std::sync::Mutex;
 use vharness::proto::{ffs, fus};
@@ -109,6 +110,7 @@ fn isolated(r: &Req, f: fn(&Req) -> String) -> String {
 fn inner_run(chan: &str) -> Option<fn(&Req) -> String> {
     match chan {
         "info" => Some(info_inner),
+        "info.new" => Some(info_new_inner),
         "e2e" => Some(e2e_inner),
         _ => None,
     }
@@ -241,7 +243,7 @@ fn parse_patterns(r: &Req) -> Vec<Pattern> {
                 snode_children: vec![],
                 post: vec![],
                 separators: parse_sets(r, &format!("{p}sep")),
-                nblk: Some(r.us(&format!("{p}nblk"))),
+                nblk: if r.has(&format!("{p}nonblk")) { None } else { Some(r.us(&format!("{p}nblk"))) },
                 n_cliques: r.u(&format!("{p}ncl")),
             };
             (t, r.us(&format!("{p}ord")), r.u(&format!("{p}oi")))
@@ -1208,6 +1210,360 @@ fn oracle_e2e(r: &Req, out: &str) -> Result<(), String> {
     Ok(())
 }
 
+// ------------------------------------------------------------------ channels of the accessors /
+// helpers that the older channels only exercise through their callers
+// (model: lean/ClarabelModel/Chordal/InfoAccessors.lean)
+
+/// value of one accessor; a panic is reported as the bare token `panic`
+fn gv<F: FnOnce() -> String>(f: F) -> String {
+    let s = guarded(f);
+    if s.starts_with("panic") {
+        "panic".to_string()
+    } else {
+        s
+    }
+}
+
+fn run_info_counts(r: &Req) -> String {
+    let info = parse_info(r);
+    let a = CscMatrix::<f64>::zeros((r.u("m"), r.u("n")));
+    format!(
+        "dec={} ic={} ipc={} dcc={} fpa={} ppa={} fcc={} fpc={} ppc={} lnb={} hcols={} adim={} hdr={}",
+        info.is_decomposed() as usize,
+        info.init_cone_count(),
+        info.init_psd_cone_count(),
+        info.decomposable_cone_count(),
+        gv(|| info.final_psd_cones_added().to_string()),
+        gv(|| info.premerge_psd_cones_added().to_string()),
+        gv(|| info.final_cone_count().to_string()),
+        gv(|| info.final_psd_cone_count().to_string()),
+        gv(|| info.premerge_psd_cone_count().to_string()),
+        gv(|| info.largest_nblk().to_string()),
+        gv(|| info.find_H_col_dimension().to_string()),
+        gv(|| {
+            let (x, y, z) = info.find_A_dimension(&a);
+            format!("{},{},{}", x, y, z)
+        }),
+        gv(|| format!(
+            "{},{},{},{}",
+            info.init_psd_cone_count(),
+            info.decomposable_cone_count(),
+            info.premerge_psd_cone_count(),
+            info.final_psd_cone_count()
+        )),
+    )
+}
+/// the meaning of the counters, stated on the request alone: `Σ (n_cliques - 1)` PSD cones are
+/// added by the decomposition (`Σ (snode slots - 1)` before merging), the identity / clique blocks
+/// have `Σ nvars` / `Σ tri(nblk)` columns, the overlaps are `Σ tri(|separator|)`
+fn oracle_info_counts(r: &Req, out: &str) -> Result<(), String> {
+    let o = Req::parse(&format!("x {}", out)).ok_or("unparsable")?;
+    let cones = parse_cones(r, "");
+    let pats = parse_patterns(r);
+    if r.has("damaged") {
+        return Ok(());
+    }
+    let npsd = cones.iter().filter(|c| cone_kind(c).0 == 4).count();
+    let added: usize = pats.iter().map(|p| p.0.n_cliques - 1).sum();
+    let pre: usize = pats.iter().map(|p| p.0.snode.len() - 1).sum();
+    let want = [
+        ("dec", (!pats.is_empty()) as usize),
+        ("ic", cones.len()),
+        ("ipc", npsd),
+        ("dcc", pats.len()),
+        ("fpa", added),
+        ("ppa", pre),
+        ("fcc", cones.len() + added),
+        ("fpc", npsd + added),
+        ("ppc", npsd + pre),
+        ("lnb", pats.iter().flat_map(|p| p.0.nblk.clone().unwrap_or_default()).max().unwrap_or(0)),
+    ];
+    for (k, v) in want {
+        if o.str(k) != v.to_string() {
+            return Err(format!("{} = {} but the patterns give {}", k, o.str(k), v));
+        }
+    }
+    if pre < added {
+        return Err("more cones after merging than before".into());
+    }
+    // columns of H / rows of the compact A, overlaps
+    let mut cols = 0;
+    let mut ov = 0;
+    let mut k = 0;
+    for (ci, c) in cones.iter().enumerate() {
+        if k < pats.len() && pats[k].2 == ci {
+            let t = &pats[k].0;
+            for i in 0..t.n_cliques {
+                let c = t.snode_post[i];
+                let nb = t.snode[c].len() + t.separators[c].len();
+                cols += nb * (nb + 1) / 2;
+                let sp = t.separators[c].len();
+                ov += sp * (sp + 1) / 2;
+            }
+            k += 1;
+        } else {
+            cols += nvars(c);
+        }
+    }
+    if o.str("hcols") != cols.to_string() {
+        return Err(format!("find_H_col_dimension = {} but the blocks have {} columns", o.str("hcols"), cols));
+    }
+    if o.us("adim") != vec![cols, r.u("n") + ov, ov] {
+        return Err(format!("find_A_dimension = {} but the layout is {},{},{}", o.str("adim"), cols, r.u("n") + ov, ov));
+    }
+    if o.us("hdr") != vec![npsd, pats.len(), npsd + pre, npsd + added] {
+        return Err("header counters".into());
+    }
+    Ok(())
+}
+
+fn run_mask(r: &Req) -> String {
+    let a = r.csc("A");
+    let b = r.fs("b");
+    format!("mask={}", vharness::proto::fbs(&hk::find_aggregate_sparsity_mask(&a, &b)))
+}
+fn oracle_mask(r: &Req, out: &str) -> Result<(), String> {
+    let a = r.csc("A");
+    let b = r.fs("b");
+    if a.rowval.iter().any(|&i| i >= b.len()) {
+        return if out.starts_with("panic") { Ok(()) } else { Err("row index outside b accepted".into()) };
+    }
+    let o = Req::parse(&format!("x {}", out)).ok_or("unparsable")?;
+    let mask = o.bs("mask");
+    if mask.len() != b.len() {
+        return Err("mask length".into());
+    }
+    for (i, &mk) in mask.iter().enumerate() {
+        let want = a.rowval.contains(&i) || b[i] != 0.0;
+        if mk != want {
+            return Err(format!("row {}: mask {} but [A b] {} an entry there", i, mk, if want { "has" } else { "has not" }));
+        }
+    }
+    Ok(())
+}
+
+/// `ChordalInfo::new` with everything it records
+fn info_new_inner(r: &Req) -> String {
+    let a = r.csc("A");
+    let b = r.fs("b");
+    let cones = parse_cones(r, "");
+    let st = settings(false, r.str("merge"), false);
+    let info = hk::Info::new(&a, &b, &cones, &st);
+    let (n, m) = info.init_dims();
+    format!("dec={} n={} m={} {} {}", info.is_decomposed() as usize, n, m, fmt_cones("", &info.init_cones()), fmt_patterns(&info.patterns()))
+}
+fn run_info_new(r: &Req) -> String {
+    isolated(r, info_new_inner)
+}
+fn oracle_info_new(r: &Req, out: &str) -> Result<(), String> {
+    if out == "hang" || out.starts_with("abort") || out.starts_with("panic") {
+        return Err(format!("ChordalInfo::new did not return: {}", out));
+    }
+    let o = Req::parse(&format!("x {}", out)).ok_or("unparsable")?;
+    let cones = parse_cones(r, "");
+    let pats = parse_patterns(&o);
+    let dec = o.u("dec") == 1;
+    if dec != !pats.is_empty() {
+        return Err("is_decomposed disagrees with the stored patterns".into());
+    }
+    let kept = parse_cones(&o, "");
+    if dec && kept.len() != cones.len() || !dec && !kept.is_empty() {
+        return Err("init_cones: copied iff decomposed".into());
+    }
+    let mut last = None;
+    for (t, ord, oi) in pats.iter() {
+        if Some(*oi) <= last && last.is_some() {
+            return Err("orig_index not strictly increasing".into());
+        }
+        last = Some(*oi);
+        match cones.get(*oi).map(cone_kind) {
+            Some((4, d)) => {
+                if ord.len() != d {
+                    return Err(format!("pattern of cone {}: ordering of length {} for dimension {}", oi, ord.len(), d));
+                }
+            }
+            _ => return Err(format!("pattern stored for cone {} which is not a PSD cone", oi)),
+        }
+        if t.n_cliques < 2 {
+            return Err("a pattern with a single clique was stored".into());
+        }
+    }
+    Ok(())
+}
+
+fn run_helper_altseq(r: &Req) -> String {
+    format!("v={}", ffs(&hkd::alternating_sequence(r.u("total"), r.u("nstart"))))
+}
+fn oracle_helper_altseq(r: &Req, out: &str) -> Result<(), String> {
+    let o = Req::parse(&format!("x {}", out)).ok_or("unparsable")?;
+    let v = o.fs("v");
+    let (t, ns) = (r.u("total"), r.u("nstart"));
+    if v.len() != t {
+        return Err("length".into());
+    }
+    for (i, &x) in v.iter().enumerate() {
+        let want = if i > ns && (i - ns) % 2 == 1 { -1.0 } else { 1.0 };
+        if x != want {
+            return Err(format!("entry {} = {} (want {})", i, x, want));
+        }
+    }
+    Ok(())
+}
+fn run_helper_extracols(r: &Req) -> String {
+    format!("v={}", fus(&hkd::extra_columns(r.u("total"), r.u("nstart"), r.u("startval"))))
+}
+fn oracle_helper_extracols(r: &Req, out: &str) -> Result<(), String> {
+    let (t, ns, sv) = (r.u("total"), r.u("nstart"), r.u("startval"));
+    if t == 0 {
+        return if out.starts_with("panic") { Ok(()) } else { Err("empty vector accepted".into()) };
+    }
+    let o = Req::parse(&format!("x {}", out)).ok_or("unparsable")?;
+    let v = o.us("v");
+    if v.len() != t {
+        return Err("length".into());
+    }
+    for (i, &x) in v.iter().enumerate() {
+        // pairs start at ns; a trailing single slot (odd remainder) stays 0
+        let want = if i >= ns && (i - ns) / 2 * 2 + ns + 1 < t { sv + (i - ns) / 2 } else { 0 };
+        if x != want {
+            return Err(format!("entry {} = {} (want {})", i, x, want));
+        }
+    }
+    Ok(())
+}
+fn fmt_opt_range(x: Option<std::ops::Range<usize>>) -> String {
+    match x {
+        Some(g) => format!("{},{}", g.start, g.end),
+        None => "none".to_string(),
+    }
+}
+fn run_helper_rows(r: &Req) -> String {
+    let a = r.csc("A");
+    let b = r.fs("b");
+    let (col, rs, re) = (r.u("col"), r.u("rs"), r.u("re"));
+    format!(
+        "mat={} vec={}",
+        gv(|| fmt_opt_range(hkd::get_rows_mat(&a, col, rs..re))),
+        fmt_opt_range(hkd::get_rows_vec(&b, rs..re))
+    )
+}
+fn oracle_helper_rows(r: &Req, out: &str) -> Result<(), String> {
+    let o = Req::parse(&format!("x {}", out)).ok_or("unparsable")?;
+    let a = r.csc("A");
+    let b = r.fs("b");
+    let (col, rs, re) = (r.u("col"), r.u("rs"), r.u("re"));
+    if r.has("damaged") {
+        return Ok(());
+    }
+    // the returned index range holds exactly the stored rows inside rs..re
+    let check = |got: &str, idx: &[usize], base: usize| -> Result<(), String> {
+        let inside: Vec<usize> = (0..idx.len()).filter(|&k| rs <= idx[k] && idx[k] < re).collect();
+        if got == "none" {
+            return if inside.is_empty() { Ok(()) } else { Err("rows inside the range but None returned".into()) };
+        }
+        let g: Vec<usize> = got.split(',').map(|x| x.parse().unwrap()).collect();
+        let want: Vec<usize> = (g[0]..g[1]).map(|k| k - base).collect();
+        if want != inside {
+            return Err(format!("range {}..{} does not hold exactly the rows in {}..{}", g[0], g[1], rs, re));
+        }
+        Ok(())
+    };
+    let (lo, hi) = (a.colptr[col], a.colptr[col + 1]);
+    check(o.str("mat"), &a.rowval[lo..hi], lo)?;
+    let bind: Vec<usize> = (0..b.len()).filter(|&i| b[i] != 0.0).collect();
+    check(o.str("vec"), &bind, 0)
+}
+fn run_helper_clique(r: &Req) -> String {
+    let pats = parse_patterns(r);
+    format!("clique={}", fus(&hkd::get_clique_by_index(&pats[0].0, r.u("i"))))
+}
+fn oracle_helper_clique(r: &Req, out: &str) -> Result<(), String> {
+    let pats = parse_patterns(r);
+    let t = &pats[0].0;
+    let i = r.u("i");
+    if i >= t.snode.len() || i >= t.separators.len() {
+        return if out.starts_with("panic") { Ok(()) } else { Err("index out of range accepted".into()) };
+    }
+    let o = Req::parse(&format!("x {}", out)).ok_or("unparsable")?;
+    let got: BTreeSet<usize> = o.us("clique").into_iter().collect();
+    let want: BTreeSet<usize> = t.snode[i].iter().chain(t.separators[i].iter()).copied().collect();
+    if got != want || o.us("clique").len() != want.len() {
+        return Err("not the union of supernode and separator".into());
+    }
+    Ok(())
+}
+fn run_helper_dcone(r: &Req) -> String {
+    let mut hi = r.us("HI");
+    let mut cones = parse_cones(r, "");
+    let cone = parse_cones(r, "x")[0].clone();
+    hkd::decompose_with_cone(&mut hi, &mut cones, &cone, r.u("row"));
+    format!("HI={} {}", fus(&hi), fmt_cones("", &cones))
+}
+fn oracle_helper_dcone(r: &Req, out: &str) -> Result<(), String> {
+    let o = Req::parse(&format!("x {}", out)).ok_or("unparsable")?;
+    let cone = parse_cones(r, "x")[0].clone();
+    let mut want = r.us("HI");
+    want.extend((0..nvars(&cone)).map(|i| r.u("row") + i));
+    if o.us("HI") != want {
+        return Err("H_I is not extended by row..row+nvars".into());
+    }
+    let mut wc = parse_cones(r, "");
+    wc.push(cone);
+    if fmt_cones("", &parse_cones(&o, "")) != fmt_cones("", &wc) {
+        return Err("cone not appended".into());
+    }
+    Ok(())
+}
+fn run_helper_addcone(r: &Req) -> String {
+    let (mut ns, os, mut nz, oz) = (r.fs("ns"), r.fs("os"), r.fs("nz"), r.fs("oz"));
+    let cone = parse_cones(r, "x")[0].clone();
+    let rp = hkd::add_blocks_with_cone(&mut ns, &os, &mut nz, &oz, r.u("rs")..r.u("re"), &cone, r.u("rp"));
+    format!("s={} z={} rp={}", ffs(&ns), ffs(&nz), rp)
+}
+fn oracle_helper_addcone(r: &Req, out: &str) -> Result<(), String> {
+    let (ns, os, nz, oz) = (r.fs("ns"), r.fs("os"), r.fs("nz"), r.fs("oz"));
+    let cone = parse_cones(r, "x")[0].clone();
+    let (rs, re, rp) = (r.u("rs"), r.u("re"), r.u("rp"));
+    let l = nvars(&cone);
+    let fits = rs <= re && re - rs == l && re <= ns.len() && re <= nz.len() && rp + l <= os.len() && rp + l <= oz.len();
+    if !fits {
+        return if out.starts_with("panic") { Ok(()) } else { Err("ill-fitting ranges accepted".into()) };
+    }
+    let o = Req::parse(&format!("x {}", out)).ok_or("unparsable")?;
+    let (s, z) = (o.fs("s"), o.fs("z"));
+    for i in 0..ns.len() {
+        let (ws, wz) = if rs <= i && i < re { (os[rp + i - rs], oz[rp + i - rs]) } else { (ns[i], nz[i]) };
+        if s[i].to_bits() != ws.to_bits() || z[i].to_bits() != wz.to_bits() {
+            return Err(format!("entry {} is not the copy / the old value", i));
+        }
+    }
+    if o.u("rp") != rp + l {
+        return Err("row_ptr".into());
+    }
+    Ok(())
+}
+fn run_helper_noverlaps(r: &Req) -> String {
+    let (ri, nov) = hkd::number_of_overlaps_in_rows(&r.csc("A"));
+    format!("ri={} nov={}", fus(&ri), ffs(&nov))
+}
+fn oracle_helper_noverlaps(r: &Req, out: &str) -> Result<(), String> {
+    let a = r.csc("A");
+    if a.rowval.iter().any(|&i| i >= a.m) {
+        return if out.starts_with("panic") { Ok(()) } else { Err("row index out of range accepted".into()) };
+    }
+    let o = Req::parse(&format!("x {}", out)).ok_or("unparsable")?;
+    let (ri, nov) = (o.us("ri"), o.fs("nov"));
+    let mut sums = vec![0.0; a.m];
+    for (k, &i) in a.rowval.iter().enumerate() {
+        sums[i] += a.nzval[k];
+    }
+    let want: Vec<usize> = (0..a.m).filter(|&i| sums[i] > 1.0).collect();
+    if ri != want || nov.len() != ri.len() || ri.iter().zip(&nov).any(|(&i, &v)| v != sums[i]) {
+        return Err("not the rows with sum > 1 and their sums".into());
+    }
+    Ok(())
+}
+
 fn channels() -> Vec<Channel> {
     vec![
         Channel { name: "info", tol: Tol::Exact, run: run_info, oracle: Some(oracle_info), modelled: false,
@@ -1233,6 +1589,28 @@ fn channels() -> Vec<Channel> {
         Channel { name: "e2e", tol: Tol::Exact, run: run_e2e, oracle: Some(oracle_e2e), modelled: false,
             rust_fn: "DefaultSolver::new + solve, decomposition on vs off", lean: "(oracle only)" },
         Channel { name: "batch", tol: Tol::Exact, run: run_batch, oracle: None, modelled: false, rust_fn: "(isolation wrapper)", lean: "" },
+        Channel { name: "info.counts", tol: Tol::Exact, run: run_info_counts, oracle: Some(oracle_info_counts), modelled: true,
+            rust_fn: "ChordalInfo::{is_decomposed,init_cone_count,init_psd_cone_count,decomposable_cone_count,final_psd_cones_added,premerge_psd_cones_added,final_cone_count,final_psd_cone_count,premerge_psd_cone_count,largest_nblk,find_H_col_dimension,find_A_dimension}",
+            lean: "Chordal.ChordalInfo.{isDecomposed,initConeCount,initPsdConeCount,decomposableConeCount,finalPsdConesAdded,premergePsdConesAdded,finalConeCount,finalPsdConeCount,premergePsdConeCount,largestNblk,findHColDimension,findADimension,headerCounts} / C18.cone_counts" },
+        Channel { name: "mask", tol: Tol::Exact, run: run_mask, oracle: Some(oracle_mask), modelled: true,
+            rust_fn: "chordal_info::find_aggregate_sparsity_mask", lean: "Chordal.findAggregateSparsityMask" },
+        Channel { name: "info.new", tol: Tol::Exact, run: run_info_new, oracle: Some(oracle_info_new), modelled: true,
+            rust_fn: "ChordalInfo::new / find_sparsity_patterns / analyse_psdtriangle_sparsity_pattern (find_graph's results handed to the model)",
+            lean: "Chordal.ChordalInfo.new / Chordal.findSparsityPatterns / Chordal.analysePsdtriangleSparsityPattern" },
+        Channel { name: "helper.altseq", tol: Tol::Exact, run: run_helper_altseq, oracle: Some(oracle_helper_altseq), modelled: true,
+            rust_fn: "augment_compact::alternating_sequence", lean: "Chordal.alternatingSequence" },
+        Channel { name: "helper.extracols", tol: Tol::Exact, run: run_helper_extracols, oracle: Some(oracle_helper_extracols), modelled: true,
+            rust_fn: "augment_compact::extra_columns", lean: "Chordal.extraColumns" },
+        Channel { name: "helper.rows", tol: Tol::Exact, run: run_helper_rows, oracle: Some(oracle_helper_rows), modelled: true,
+            rust_fn: "augment_compact::{get_rows_mat,get_rows_vec,get_rows_subset}", lean: "Chordal.{getRowsMat,getRowsVec,getRowsSubset}" },
+        Channel { name: "helper.clique", tol: Tol::Exact, run: run_helper_clique, oracle: Some(oracle_helper_clique), modelled: true,
+            rust_fn: "augment_compact::get_clique_by_index", lean: "Chordal.getCliqueByIndex" },
+        Channel { name: "helper.dcone", tol: Tol::Exact, run: run_helper_dcone, oracle: Some(oracle_helper_dcone), modelled: true,
+            rust_fn: "augment_standard::decompose_with_cone", lean: "Chordal.ChordalInfo.decomposeWithCone" },
+        Channel { name: "helper.addcone", tol: Tol::Exact, run: run_helper_addcone, oracle: Some(oracle_helper_addcone), modelled: true,
+            rust_fn: "reverse_compact::add_blocks_with_cone", lean: "Chordal.addBlocksWithCone" },
+        Channel { name: "helper.noverlaps", tol: Tol::Exact, run: run_helper_noverlaps, oracle: Some(oracle_helper_noverlaps), modelled: true,
+            rust_fn: "reverse_standard::number_of_overlaps_in_rows (row_sums, position_all)", lean: "Chordal.numberOfOverlapsInRows / Chordal.cscRowSums" },
     ]
 }
 
@@ -1460,11 +1838,13 @@ fn generate(s: &mut Session) {
         probs.push((pr, line));
     }
     prefetch(&lines, 40);
+    let mut acc_in: Vec<(String, String)> = vec![]; // inputs of the accessor / helper channels (generated at the end)
     for (pr, line) in probs {
-        let pats = s.submit(line);
+        let pats = s.submit(line.clone());
         if !pats.starts_with("np=") {
             continue;
         }
+        acc_in.push((line, pats.clone()));
         let np: usize = Req::parse(&format!("x {}", pats)).unwrap().u("np");
         s.count(&format!("decomposed-cones:{}", np));
         if np == 0 {
@@ -1579,6 +1959,162 @@ fn generate(s: &mut Session) {
 
     // ---- psd_complete.written (last, so that the cases above do not depend on it)
     generate_psd_written(s, written_in);
+
+    // ---- accessors and helpers (after everything else, for the same reason)
+    generate_accessors(s, acc_in);
+}
+
+/// the table of `find_graph` results for the masks that `find_sparsity_patterns` hands to it
+fn graph_table(a: &CscMatrix<f64>, b: &[f64], cones: &[Cone]) -> String {
+    let mask = hk::find_aggregate_sparsity_mask(a, b);
+    let mut out = vec![];
+    let mut off = 0;
+    for c in cones {
+        let l = nvars(c);
+        if let (4, d) = cone_kind(c) {
+            let mut mk = mask[off..off + l].to_vec();
+            for i in 0..d {
+                mk[tri(i, i)] = true;
+            }
+            if !mk.iter().all(|&x| x) {
+                let (lm, ord) = hk::find_graph(&mk);
+                let k = out.len();
+                out.push(format!(
+                    "g{k}_mask={} g{k}_n={} g{k}_colptr={} g{k}_rowval={} g{k}_ord={}",
+                    vharness::proto::fbs(&mk), lm.n, fus(&lm.colptr), fus(&lm.rowval), fus(&ord)
+                ));
+            }
+        }
+        off += l;
+    }
+    format!("ng={} {}", out.len(), out.join(" "))
+}
+
+fn generate_accessors(s: &mut Session, inputs: Vec<(String, String)>) {
+    let n_new = s.budget(80, 1500);
+    let mut new_lines = vec![];
+    for (k, (line, _)) in inputs.iter().enumerate() {
+        if k >= n_new {
+            break;
+        }
+        let r = Req::parse(line).unwrap();
+        let (a, b, cones) = (r.csc("A"), r.fs("b"), parse_cones(&r, ""));
+        new_lines.push(format!("info.new {} b={} {} merge={} {}", fmt_csc_p("A", &a), ffs(&b), fmt_cones("", &cones), r.str("merge"), graph_table(&a, &b, &cones)));
+    }
+    prefetch(&new_lines, 40);
+    for l in new_lines {
+        let out = s.submit(l);
+        if out.starts_with("dec=") {
+            s.count(if out.starts_with("dec=1") { "info.new:decomposed" } else { "info.new:not-decomposed" });
+        }
+    }
+    for (k, (line, pats)) in inputs.into_iter().enumerate() {
+        let r = Req::parse(&line).unwrap();
+        let (a, b, cones) = (r.csc("A"), r.fs("b"), parse_cones(&r, ""));
+        let (n, m) = (a.n, a.m);
+        let head = format!("n={} m={} {} {}", n, m, fmt_cones("", &cones), pats);
+        s.submit(format!("info.counts {}", head));
+        let pr = Req::parse(&format!("x {}", pats)).unwrap();
+        let pp = parse_patterns(&pr);
+        if !pp.is_empty() && s.rng.bool(0.1) {
+            // damaged: a pattern without block dimensions (largest_nblk unwraps them)
+            let i = s.rng.below(pp.len());
+            s.count("info.counts:damaged:nblk-none");
+            s.submit(format!("info.counts {} p{}_nonblk=1 damaged=1", head, i));
+        }
+        if !pp.is_empty() {
+            let t = &pp[0].0;
+            let i = if s.rng.bool(0.1) { t.snode.len() + s.rng.below(2) } else { s.rng.below(t.snode.len()) };
+            s.submit(format!("helper.clique {} i={}", head, i));
+        }
+        if k % 4 == 0 {
+            let mut bb = b.clone();
+            if s.rng.bool(0.3) && !bb.is_empty() {
+                let i = s.rng.below(bb.len());
+                bb[i] = *s.rng.choose(&[-0.0, f64::NAN, 0.0, 1e-320]);
+            }
+            let mut aa = a.clone();
+            if s.rng.bool(0.2) && !aa.nzval.is_empty() {
+                // an explicitly stored zero still marks its row
+                let i = s.rng.below(aa.nzval.len());
+                aa.nzval[i] = 0.0;
+            }
+            if s.rng.bool(0.04) && !aa.rowval.is_empty() {
+                let i = s.rng.below(aa.rowval.len());
+                aa.rowval[i] = bb.len() + s.rng.below(2);
+                s.count("mask:row-outside-b");
+            }
+            s.submit(format!("mask {} b={}", fmt_csc_p("A", &aa), ffs(&bb)));
+        }
+        // get_rows_mat / get_rows_vec : a cone's row range or an arbitrary one
+        if k % 3 == 0 {
+            let col = s.rng.below(n);
+            let (rs, re) = if s.rng.bool(0.7) {
+                let c = s.rng.below(cones.len());
+                let st: usize = cones[..c].iter().map(nvars).sum();
+                (st, st + nvars(&cones[c]))
+            } else {
+                let x = s.rng.below(m + 2);
+                let y = s.rng.below(m + 2);
+                if s.rng.bool(0.8) { (x.min(y), x.max(y)) } else { (x, y) }
+            };
+            s.submit(format!("helper.rows {} b={} col={} rs={} re={}", fmt_csc_p("A", &a), ffs(&b), col, rs, re));
+        }
+    }
+    for _ in 0..s.budget(150, 2000) {
+        let ns = s.rng.below(7);
+        let total = if s.rng.bool(0.8) { ns + 2 * s.rng.below(5) } else { s.rng.below(12) };
+        s.submit(format!("helper.altseq total={} nstart={}", total, ns));
+        let sv = s.rng.below(9);
+        s.submit(format!("helper.extracols total={} nstart={} startval={}", total, ns, sv));
+    }
+    for _ in 0..s.budget(100, 1500) {
+        // decompose_with_cone
+        let hi: Vec<usize> = (0..s.rng.below(5)).map(|_| s.rng.below(20)).collect();
+        let mut cs: Vec<Cone> = vec![];
+        for _ in 0..s.rng.below(3) {
+            let kd = *s.rng.choose(&[0usize, 1, 2, 4]);
+            cs.push(cone_of(kd, 1 + s.rng.below(3)));
+        }
+        let kd = *s.rng.choose(&[0usize, 1, 2, 3, 4]);
+        let cone = cone_of(kd, s.rng.below(4));
+        let row = s.rng.below(30);
+        s.submit(format!("helper.dcone HI={} {} {} row={}", fus(&hi), fmt_cones("", &cs), fmt_cones("x", &[cone]), row));
+        // add_blocks_with_cone
+        let kd = *s.rng.choose(&[0usize, 1, 2, 3, 4]);
+        let cone = cone_of(kd, 1 + s.rng.below(3));
+        let l = nvars(&cone);
+        let m = l + s.rng.below(6);
+        let mo = l + s.rng.below(6);
+        let rs = s.rng.below(m - l + 1);
+        let rp = s.rng.below(mo - l + 1);
+        let (rs, re, rp) = match s.rng.below(10) {
+            0 => (rs, rs + l + 1, rp),
+            1 => (rs, (rs + l).saturating_sub(1), rp),
+            2 => (rs, rs + l, mo - l + 1),
+            3 => (m - l + 1, m + 1, rp),
+            _ => (rs, rs + l, rp),
+        };
+        let v = |s: &mut Session, k: usize| -> Vec<f64> { (0..k).map(|_| s.rng.smallint(9)).collect() };
+        let (ns, os, nz, oz) = (v(s, m), v(s, mo), v(s, m), v(s, mo));
+        s.submit(format!("helper.addcone ns={} os={} nz={} oz={} rs={} re={} {} rp={}", ffs(&ns), ffs(&os), ffs(&nz), ffs(&oz), rs, re, fmt_cones("x", &[cone]), rp));
+        // number_of_overlaps_in_rows : an `H`-like 0/1 matrix or general values
+        let rows = 1 + s.rng.below(6);
+        let cols = s.rng.below(8);
+        let hlike = s.rng.bool(0.6);
+        let (mut ri, mut cj, mut vv) = (vec![], vec![], vec![]);
+        for j in 0..cols {
+            for i in 0..rows {
+                if if hlike { i == s.rng.below(rows) } else { s.rng.bool(0.4) } {
+                    ri.push(i);
+                    cj.push(j);
+                    vv.push(if hlike { 1.0 } else { *s.rng.choose(&[1.0, 0.5, -1.0, 2.0, 0.25]) });
+                }
+            }
+        }
+        let hm = CscMatrix::new_from_triplets(rows, cols, ri, cj, vv);
+        s.submit(format!("helper.noverlaps {}", fmt_csc_p("A", &hm)));
+    }
 }
 
 /// inputs of `psd_complete.written`: the patterns of the `psd_complete` cases (all three merge
